@@ -276,6 +276,21 @@ func ReadDiskImage(dbDir string) (*Image, error) {
 	return im, nil
 }
 
+// LogicalCut returns the image cut to SQLite's in-header size when the file is
+// longer (SQLite truncates after the commit point; until then the header rules).
+func (im *Image) LogicalCut() *Image {
+	if im.N() == 0 {
+		return im
+	}
+	h, _, ok := decodeDBHeader(im.Pages[0])
+	if ok && h.SizePages > 0 && h.SizePages < im.N() {
+		out := im.Clone()
+		out.Pages = out.Pages[:h.SizePages]
+		return out
+	}
+	return im
+}
+
 // ---------------------------------------------------------------------------
 // LTX files
 
